@@ -151,7 +151,9 @@ CHECKS.update({
         text="MC_Validators.tla: the validators in code order accept exactly the documented conditions for all sets / "
              "contracts built from a menu at, below and above every (shrunk) limit with slot collisions in and across "
              "solutions. The validators driver probes the real constants (100/100/10000/1000/1000/10000; 1000/1000/100) at "
-             "limit-1/limit/limit+1, pairwise, all at once, signed contracts with good / tampered / malformed signatures; "
+             "limit-1/limit/limit+1, pairwise, all at once, an oversized slot / key / value at every position among three, each "
+             "under four fills of the words (uniform, ascending, descending, mixed: verdicts may depend on sizes and key "
+             "equality only), signed contracts with good / tampered / malformed signatures; "
              "every set returned by the two-pass check on a valid input is re-validated with check_set.",
         note="inputs are size descriptors (all the validators inspect); signature recoverability is computed with secp256k1 directly.",
         technique="TLA+ validators vs documented acceptance conditions checked with TLC + TLC validation of real verdicts"),
